@@ -241,6 +241,71 @@ def rejected_should_be(ctx, p):
 class Obj:
     def __init__(self, v): self.v = v
     def shallow_copy(self): return Obj(self.v)
+    def copy(self): return Obj(self.v)
+    def clone(self): return Obj(self.v)
+
+
+def copy_independence(ctx, fpeps, quick):
+    """a container and its shallow_copy / copy / clone, also with an active patch: item assignment, move_to_patch and apply_patch on one of them
+    never show through the other (the other keeps answering like a twin that replayed only the common history)"""
+    rng = ctx.rng
+
+    def rand_ops(k, Nx, Ny, start):
+        ops, val = [], start
+        for _ in range(k):
+            r = rng.random()
+            s = (rng.randrange(Nx), rng.randrange(Ny))
+            if r < 0.5:
+                val += 1; ops.append(('set', s, val))
+            elif r < 0.85:
+                ops.append(('move', s))
+            else:
+                ops.append(('apply',))
+        return ops, val
+
+    def play(lat, ops):
+        for o in ops:
+            if o[0] == 'set':
+                lat[o[1]] = Obj(o[2])
+            elif o[0] == 'move':
+                try:
+                    if lat[o[1]] is not None:
+                        lat.move_to_patch([o[1]])
+                except KeyError:
+                    pass
+            else:
+                lat.apply_patch()
+
+    def view(lat, Nx, Ny):
+        out = []
+        for x in range(-1, Nx + 1):
+            for y in range(-1, Ny + 1):
+                try:
+                    o = lat[(x, y)]
+                    out.append(None if o is None else o.v)
+                except KeyError:
+                    out.append('KeyError')
+        return out
+    for rep in range(60 if quick else 800):
+        Nx, Ny = rng.randint(1, 3), rng.randint(1, 3)
+        g = fpeps.SquareLattice(dims=(Nx, Ny), boundary=rng.choice(BCS))
+        common, val = rand_ops(rng.randint(2, 8), Nx, Ny, 0)
+        for s_ in [(x, y) for x in range(Nx) for y in range(Ny)]:
+            common.insert(0, ('set', s_, 1000 + s_[0] * 10 + s_[1]))
+        how = rng.choice(['shallow_copy', 'copy', 'clone'])
+        a, twin = fpeps._geometry.Lattice(g), fpeps._geometry.Lattice(g)
+        play(a, common); play(twin, common)
+        b = getattr(a, how)()
+        later, _ = rand_ops(rng.randint(1, 6), Nx, Ny, val + 100)
+        side = rng.choice(['copy', 'source'])
+        play(b if side == 'copy' else a, later)
+        other = a if side == 'copy' else b
+        desc = dict(kind='lattice-copy', how=how, dims=(Nx, Ny), side=side, common=[list(map(str, o)) for o in common[-6:]], later=[list(map(str, o)) for o in later])
+        ctx.case(desc, nontrivial=True)
+        ctx.count('lattice-copy:' + how)
+        if view(other, Nx, Ny) != view(twin, Nx, Ny):
+            ctx.violation('operations %r on the %s of a Lattice.%s() show through the other container (dims %r)' % (later, side, how, (Nx, Ny)), desc, family='lattice-copy-shares')
+
 
 
 def lattice_cases(ctx, fpeps, quick):
@@ -366,6 +431,7 @@ def run(ctx):
                         ctx.violation('triangular diagonal bond %r not fermionically ordered' % (b,), dict(kind='tri-diag-order', dims=(Nx, Ny), boundary=bc))
     # ---- Lattice container
     cases += lattice_cases(ctx, fpeps, quick)
+    copy_independence(ctx, fpeps, quick)
     # ---- model side
     for (op, arg, impl, desc) in cases:
         ctx.case(desc, nontrivial=not (desc.get('dims') == (1, 1)))
